@@ -35,8 +35,9 @@ const (
 
 const (
 	pkOp = iota // operation boundary
-	pkLock
+	pkLock      // about to call Lock
 	pkRLock
+	pkLockWait // has called Lock while readers held the mutex: waits, and blocks new readers meanwhile
 )
 
 type Op struct {
@@ -123,6 +124,11 @@ func (s *Sched) enabledThread(t int) bool {
 	case pkOp:
 		return true
 	case pkLock:
+		// calling Lock is a step of its own: on a free mutex it acquires; while READERS hold the mutex it turns the
+		// caller into a waiting writer (from then on new readers block: writer preference of sync.RWMutex). While
+		// another writer holds the mutex the call changes nothing for anybody: not offered as a separate step.
+		return s.mus[s.pendMu[t]].writer == -1
+	case pkLockWait:
 		m := &s.mus[s.pendMu[t]]
 		if m.writer != -1 {
 			return false
@@ -137,12 +143,10 @@ func (s *Sched) enabledThread(t int) bool {
 		if s.mus[s.pendMu[t]].writer != -1 {
 			return false
 		}
-		// writer preference of sync.RWMutex: a writer that has called Lock (= a thread that has run up to its Lock
-		// point) blocks NEW readers, also a reader that already holds the lock and asks again (recursive read
-		// locking deadlocks exactly this way). Schedules in which the reader asks before the writer calls Lock are
-		// those in which the writer has not been run up to its Lock point yet.
+		// a waiting writer blocks NEW readers, also a reader that already holds the lock and asks again (recursive
+		// read locking deadlocks exactly this way)
 		for u := 0; u < s.n; u++ {
-			if u != t && !s.finished[u] && s.atPoint[u] && s.pendKind[u] == pkLock && s.pendMu[u] == s.pendMu[t] {
+			if u != t && !s.finished[u] && s.atPoint[u] && s.pendKind[u] == pkLockWait && s.pendMu[u] == s.pendMu[t] {
 				return false
 			}
 		}
@@ -156,53 +160,68 @@ func (s *Sched) enabledThread(t int) bool {
 //
 //go:norace
 func (s *Sched) decide(me int) {
-	if s.nPoints >= maxPoints {
-		s.tooLong = true
-		s.aborted = true
-		return
-	}
-	p := &s.points[s.nPoints]
-	p.nEnabled = 0
-	p.running = me
-	p.runningEnabled = me >= 0 && s.enabledThread(me)
-	if p.runningEnabled {
-		p.enabled[0] = me
-		p.nEnabled = 1
-	}
-	for t := 0; t < s.n; t++ {
-		if t != me && s.enabledThread(t) {
-			p.enabled[p.nEnabled] = t
-			p.nEnabled++
-		}
-	}
-	if p.nEnabled == 0 {
-		if s.nDone < s.n {
-			s.deadlock = true
-		}
-		s.aborted = true
-		return
-	}
-	choice := 0
-	if s.nPoints < len(s.prefix) {
-		choice = s.prefix[s.nPoints]
-		if choice >= p.nEnabled {
-			s.diverged = true
+	for {
+		if s.nPoints >= maxPoints {
+			s.tooLong = true
 			s.aborted = true
 			return
 		}
+		p := &s.points[s.nPoints]
+		p.nEnabled = 0
+		p.running = me
+		p.runningEnabled = me >= 0 && s.enabledThread(me)
+		if p.runningEnabled {
+			p.enabled[0] = me
+			p.nEnabled = 1
+		}
+		for t := 0; t < s.n; t++ {
+			if t != me && s.enabledThread(t) {
+				p.enabled[p.nEnabled] = t
+				p.nEnabled++
+			}
+		}
+		if p.nEnabled == 0 {
+			if s.nDone < s.n {
+				s.deadlock = true
+			}
+			s.aborted = true
+			return
+		}
+		choice := 0
+		if s.nPoints < len(s.prefix) {
+			choice = s.prefix[s.nPoints]
+			if choice >= p.nEnabled {
+				s.diverged = true
+				s.aborted = true
+				return
+			}
+		}
+		p.chosen = choice
+		s.nPoints++
+		next := p.enabled[choice]
+		if s.pendKind[next] == pkLock {
+			m := &s.mus[s.pendMu[next]]
+			busy := false
+			for i := 0; i < s.n; i++ {
+				busy = busy || m.readers[i] > 0
+			}
+			if busy {
+				// the Lock call itself: the thread becomes a waiting writer and stays parked; decide again
+				s.pendKind[next] = pkLockWait
+				continue
+			}
+		}
+		// grant: the chosen thread passes its point
+		s.atPoint[next] = false
+		switch s.pendKind[next] {
+		case pkLock, pkLockWait:
+			s.mus[s.pendMu[next]].writer = next
+		case pkRLock:
+			s.mus[s.pendMu[next]].readers[next]++
+		}
+		s.turn = next
+		return
 	}
-	p.chosen = choice
-	s.nPoints++
-	next := p.enabled[choice]
-	// grant: the chosen thread passes its point
-	s.atPoint[next] = false
-	switch s.pendKind[next] {
-	case pkLock:
-		s.mus[s.pendMu[next]].writer = next
-	case pkRLock:
-		s.mus[s.pendMu[next]].readers[next]++
-	}
-	s.turn = next
 }
 
 //go:norace
@@ -442,7 +461,7 @@ func (s *Sched) result() *Execution {
 		if s.deadlock && !s.finished[t] {
 			what := "?"
 			switch s.pendKind[t] {
-			case pkLock:
+			case pkLock, pkLockWait:
 				what = fmt.Sprintf("Lock(mutex#%d held by writer=%d readers=%v)", s.pendMu[t], s.mus[s.pendMu[t]].writer, s.mus[s.pendMu[t]].readers[:s.n])
 			case pkRLock:
 				what = fmt.Sprintf("RLock(mutex#%d held by writer=%d)", s.pendMu[t], s.mus[s.pendMu[t]].writer)
